@@ -12,6 +12,8 @@ props = sys.argv[2:] or [c["property_id"] for c in json.loads((VERIF / "MANIFEST
 st = subprocess.run(["git", "-C", "/repo", "status", "--porcelain", "--untracked-files=no"], capture_output=True, text=True).stdout.strip()
 if st:
     sys.exit(f"/repo is not clean:\n{st}")
+if subprocess.run(["git", "-C", "/repo", "apply", "--check", patch], capture_output=True).returncode != 0:
+    sys.exit("PATCH-DOES-NOT-APPLY " + patch)
 subprocess.check_call(["git", "-C", "/repo", "apply", patch])
 try:
     def run(p):
